@@ -1,6 +1,7 @@
 package props
 
 import (
+	"encoding/json"
 	"fmt"
 	"os"
 	"path/filepath"
@@ -31,7 +32,7 @@ func init() {
 		},
 		Batches: tiered(64, 1536),
 		Run:     runC15,
-		Timeout: timeoutFor(10*time.Minute, 45*time.Minute),
+		Timeout: timeoutFor(3*time.Minute, 45*time.Minute),
 	})
 }
 
@@ -314,7 +315,18 @@ func runC15(w *h.W, batch int) {
 				// .frac-cache is written without fsync: after a power loss it may be stale, partial or missing
 				fc := filepath.Join(dir, ".frac-cache")
 				if st, err := os.Stat(fc); err == nil {
-					switch hr.Intn(4) {
+					switch hr.Intn(5) {
+					case 4:
+						// well-formed but useless: empty entries for the sealed fractions on disk (a cache the store cannot trust)
+						ents := map[string]map[string]any{}
+						names, _ := filepath.Glob(filepath.Join(dir, "*.index"))
+						for _, n := range names {
+							ents[strings.TrimSuffix(filepath.Base(n), ".index")] = map[string]any{}
+						}
+						if b, err := json.Marshal(ents); err == nil && len(ents) > 0 {
+							os.WriteFile(fc, b, 0o644)
+							tear = append(tear, ".frac-cache with empty entries")
+						}
 					case 0:
 						os.Truncate(fc, int64(hr.Intn(int(st.Size())+1)))
 						tear = append(tear, ".frac-cache truncated")
